@@ -37,8 +37,12 @@ CPPType *CPPType::new_type(CPPType *type) { return type; }
 // is replaced by one fixed strict total order: the order in which the pointers are first seen -- the address order of a
 // bump allocator.  The real std::map code (find / insert / operator[]) runs unchanged on top of it; the native replay uses
 // the real address order.
-static CPPDeclaration *seen[32];
+static CPPDeclaration **seen;        // a fresh table per scenario: pointer sets of earlier scenarios do not pile up in it
 static int n_seen;
+static void new_order() {
+  seen = new CPPDeclaration *[32];
+  n_seen = 0;
+}
 static int rank_of(CPPDeclaration *p) {
   for (int i = 0; i < n_seen; i++) {
     if (seen[i] == p) return i;
@@ -71,7 +75,7 @@ NOINL static bool evaluates_to(CPPExpression *e, int value) {
 
 NOINL static void scenario(int ek, int bk, int V, int C) {
 #ifndef VERIF_NATIVE
-  n_seen = 0;
+  new_order();
 #endif
   CPPType *t_int = new CPPSimpleType(CPPSimpleType::T_int);
   CPPType *t_float = new CPPSimpleType(CPPSimpleType::T_float);
